@@ -83,8 +83,13 @@ class BMSIO(GameIO):
             text = text.replace("\r\n", "\n")
         return BMSMap.read(text.split("\n"), note_channel_config=self._cfg(layout))
 
-    def write_api(self, obj, layout=None) -> bytes:
+    def write_api(self, obj, layout=None):
         return obj.write(note_channel_config=self._cfg(layout))
+
+    def api_bytes(self, raw):
+        if not isinstance(raw, (bytes, bytearray)):
+            return None, f"write() returned a {type(raw).__name__}, not bytes"
+        return bytes(raw), ""
 
     def write(self, obj, path, layout=None):
         return obj.write_file(path, note_channel_config=self._cfg(layout))
